@@ -28,7 +28,7 @@ REQUIRED = {"post:covariance_and_gradients": 100, "cases:cp3plus": 20, "cases:d>
 
 def jobs(tier, seed):
     n_jobs = 16 if tier == "quick" else 32
-    return [{"name": f"cov-{j}", "seed": seed, "j": j, "n_cases": 14 if tier == "quick" else 120} for j in range(n_jobs)]
+    return [{"name": f"cov-{j}", "seed": seed, "j": j, "n_cases": 60 if tier == "quick" else 400} for j in range(n_jobs)]
 
 
 def standalone_labels(spec, x, prefix_free=True):
